@@ -120,8 +120,13 @@ def execute(case):
             plant(st, other, name, doc)
         # step 1: default open
         try:
+            vfs.reset_log()
             with fsize_limit(cut) if case.get("disk_full") else no_limit():
                 t = prod.open(records_per_chunk=2)
+            if case.get("pair") is True and cut < len(doc) and len(img_reads(name)) > 1:
+                # a torn index in one location, a complete one in the other: the complete one is a usable cache, the line
+                # records are not re-read at open (at most the descriptor is looked at)
+                bad("line-records-reread-despite-complete-index", cut, f"{len(img_reads(name))} reads of the image at open time although the {other} index is complete")
             d = treesnap.diff(ref, treesnap.snapshot(t))
             out = "ok" if not d else "differs"
             if d:
